@@ -164,6 +164,12 @@ def layout_isa(draw, address_sizes=(8, 12, 16, 16, 16, 24, 32), zones=False, red
                        'offset': {'size': 8, 'byte_align': True}},
             'imm': {'type': 'numeric', 'bytecode': {'value': 3, 'size': 2}, 'argument': {'size': 16, 'byte_align': True}},
         }},
+        # a numeric enumeration ahead of registers in one set: a register name in any letter case is still the register
+        'sel': {'operand_values': {
+            'which': {'type': 'numeric_enumeration', 'bytecode': {'size': 4, 'value_dict': {0: 3, 1: 7, 5: 9}}},
+            's_a': {'type': 'register', 'register': 'a', 'bytecode': {'value': 12, 'size': 4}},
+            's_x': {'type': 'register', 'register': 'x', 'bytecode': {'value': 13, 'size': 4}},
+        }},
         'idx': {'operand_values': {
             'hl_idx': {'type': 'indexed_register', 'register': 'hl', 'bytecode': {'value': 1, 'size': 2},
                        'index_operands': {
@@ -179,6 +185,8 @@ def layout_isa(draw, address_sizes=(8, 12, 16, 16, 16, 24, 32), zones=False, red
         'ldx': {'bytecode': {'value': draw(st.integers(0, 15)), 'size': 4},
                 'operands': {'count': 1, 'operand_sets': {'list': ['idx']}}},
         'nop': {'bytecode': {'value': draw(st.integers(0, (1 << oc) - 1)), 'size': oc}},
+        'sel': {'bytecode': {'value': draw(st.integers(0, 15)), 'size': 4},
+                'operands': {'count': 1, 'operand_sets': {'list': ['sel']}}},
         'ldi': {'bytecode': {'value': draw(st.integers(0, (1 << oc) - 1)), 'size': oc},
                 'operands': {'count': 1, 'operand_sets': {'list': ['imm8']}}},
         'w12': {'bytecode': {'value': draw(st.integers(0, 15)), 'size': 4},
@@ -304,7 +312,11 @@ class Builder:
     # -- item makers -------------------------------------------------------------------------------
     def instr(self, refs=True):
         d = self.draw
-        kind = d(st.sampled_from(['nop', 'ldi', 'w12', 'jmp', 'jmp', 'mov', 'mov', 'ldx', 'br']))
+        kind = d(st.sampled_from(['nop', 'ldi', 'w12', 'jmp', 'jmp', 'mov', 'mov', 'ldx', 'br', 'sel']))
+        if kind == 'sel':
+            if d(st.booleans()):
+                return {'t': 'instr', 'mn': 'sel', 'ops': [{'k': 'reg', 'r': d(st.sampled_from(['a', 'x'])), 'deco': None}]}
+            return {'t': 'instr', 'mn': 'sel', 'ops': [{'k': 'expr', 'e': self.lit(d(st.sampled_from([0, 1, 5])))}]}
         if kind == 'br':
             # a relative branch to a label defined shortly before (the same text encodes differently at each address)
             recent = [ln['item']['name'] for ln in self.lay.lines[-12:]
